@@ -16,29 +16,181 @@ def dec(x, places):
     return ("-" if neg and n else "") + out
 
 
+def gen_minfee(rnd):
+    """Sell orders filled in slivers (volume-share liquidity on thin bars) under a minimum fee larger than a sliver's
+    proceeds, on an account with little or no quote balance."""
+    bp, qp = rnd.choice([2, 3]), 2
+    px = rnd.choice([100, 50, 20])
+    n = rnd.randint(5, 10)
+    bars = []
+    for k in range(n):
+        vol = rnd.choice(["0.04", "0.1", "0.4", "1", "1", "200", "1000"]) if k else "10"
+        bars.append([0, 60 * (k + 1), dec(px, qp), dec(px, qp), dec(px, qp), dec(px, qp), vol])
+    kind = rnd.choice(["limit", "limit", "stoplimit"])
+    amount = rnd.choice([10, 5, 2])
+    acts = [["create", kind, "sell", 0, dec(amount, bp), dec(px, qp), dec(px, qp) if kind == "stoplimit" else None, False,
+             False]]
+    if rnd.random() < 0.4:
+        acts.append(["create", "limit", "buy", 0, dec(1, bp), dec(px, qp), None, False, False])
+    return {"syms": ["BTC", "USD"], "pairs": [["BTC", "USD"]], "sym_prec": {"BTC": bp, "USD": qp}, "pair_info": {},
+            "default_pair": None, "fee": [rnd.choice(["0.1", "1"]), rnd.choice(["5", "2.5", "1"])],
+            "liq": [rnd.choice(["10", "25"]), "0"], "lend": None,
+            "initial": {"BTC": dec(amount + rnd.choice([0, 1]), bp), "USD": dec(rnd.choice([0, 0, 1, 2, 3, 100]), qp)},
+            "bars": bars, "script": {"0": acts}, "subscribe_first": False, "profile": "minfee", "ample": False}
+
+
+def gen_repay_boundary(rnd):
+    """A loan in a symbol of fine precision whose interest is one precision unit, repaid with exactly the principal
+    (one unit short), exactly principal + interest, or one unit more."""
+    p = rnd.choice([8, 8, 8, 6, 4])
+    unit = F(1, 10 ** p)
+    principal = rnd.choice([F(5, 100000), F(1, 1000), 1, F(25, 100)])
+    principal = max(unit, F(int(principal / unit)) * unit)
+    extra = rnd.choice([F(0), F(0), F(0), unit, 2 * unit])
+    bars = [[0, 60 * (k + 1), "100.00", "100.00", "100.00", "100.00", "10"] for k in range(4)]
+    script = {"0": [["loan", "BTC", dec(principal, p)]], "2": [["repay", 0]], "3": [["repay", 0]]}
+    return {"syms": ["BTC", "USD"], "pairs": [["BTC", "USD"]], "sym_prec": {"BTC": p, "USD": 2}, "pair_info": {},
+            "default_pair": None, "fee": None, "liq": None,
+            "lend": {"quote": "USD", "default": None,
+                     "conds": {"BTC": ["BTC", "0", 0, dec(unit, p), "0"]}},
+            "initial": {"BTC": dec(extra, p), "USD": "1000.00"}, "bars": bars, "script": script,
+            "subscribe_first": False, "profile": "repayboundary", "ample": False}
+
+
+def gen_cancel_repay(rnd):
+    """Open loans, an auto-repay order that the bar's liquidity only fills in part, and its explicit cancellation:
+    closing it repays loans in the symbol it acquired, largest first, as far as funds allow."""
+    bp, qp = 2, 2
+    px = rnd.choice([100, 50])
+    op = rnd.choice(["buy", "buy", "sell"])
+    n = rnd.randint(6, 9)
+    bars = [[0, 60 * (k + 1), dec(px, qp), dec(px, qp), dec(px, qp), dec(px, qp), rnd.choice(["10", "20", "5"])]
+            for k in range(n)]
+    credit = "BTC" if op == "buy" else "USD"
+    unit_loans = [1, F(1, 2), 2] if credit == "BTC" else [50, 100, 25]
+    acts0 = [["loan", credit, dec(rnd.choice(unit_loans), bp if credit == "BTC" else qp)]
+             for _ in range(rnd.randint(1, 3))]
+    if rnd.random() < 0.4:
+        acts0.append(["loan", "USD" if credit == "BTC" else "BTC", dec(1, 2)])
+    order = ["create", rnd.choice(["limit", "limit", "stoplimit"]), op, 0, dec(rnd.choice([5, 8, 10]), bp), dec(px, qp),
+             None, rnd.random() < 0.3, True]
+    if order[1] == "stoplimit":
+        order[6] = dec(px, qp)
+    k_cancel = rnd.randint(3, n - 1)
+    script = {"0": acts0, "1": [order], str(k_cancel): [["cancel", 0]]}
+    if rnd.random() < 0.5:
+        script[str(min(n - 1, k_cancel + 1))] = [["list", None], ["cancel", 0]]
+    interest = rnd.choice([["same", "0", 0, "0", "0"], ["same", "10", 4096, "0", "0"], ["USD", "5", 1024, "0.01", "0"]])
+    conds = {}
+    for sname in ("BTC", "USD"):
+        c = list(interest)
+        c[0] = sname if c[0] == "same" else c[0]
+        conds[sname] = c
+    syms = ["BTC", "USD"]
+    sym_prec = {"BTC": bp, "USD": qp}
+    if rnd.random() < 0.3:
+        # a loan in the other symbol whose interest is charged in a symbol no traded pair prices
+        other = "USD" if credit == "BTC" else "BTC"
+        syms.append("ETH")
+        sym_prec["ETH"] = 4
+        conds[other] = ["ETH", "10", 4096, "0", "0"]
+        if not any(a[0] == "loan" and a[1] == other for a in acts0):
+            acts0.append(["loan", other, dec(1, 2)])
+    return {"syms": syms, "pairs": [["BTC", "USD"]], "sym_prec": sym_prec, "pair_info": {},
+            "default_pair": None, "fee": rnd.choice([None, ["0.1", "0"]]), "liq": [rnd.choice(["10", "25"]), "0"],
+            "lend": {"quote": "USD", "default": None, "conds": conds},
+            "initial": {"BTC": dec(rnd.choice([0, 1, 10]), bp), "USD": dec(rnd.choice([1000, 10000, 100]), qp)},
+            "bars": bars, "script": script, "subscribe_first": False, "profile": "cancelrepay", "ample": False}
+
+
+def gen_reindex_fail(rnd):
+    """Bar processing that raises (an auto-repay order closes while the interest of an open loan cannot be priced)
+    around the 50th traversal of the open-order list, with other open orders behind the failing one."""
+    n = rnd.randint(58, 66)
+    bars = [[0, 60 * (k + 1), "100.00", "100.00", "100.00", "100.00", "1000"] for k in range(n)]
+    script = {"0": [["loan", "BTC", "1.00"],
+                    ["create", "limit", "buy", 0, "1.00", "50.00", None, False, False]]}
+    first = rnd.randint(40, 46)
+    for k in range(first, first + rnd.randint(8, 12)):
+        acts = [["create", "market", rnd.choice(["buy", "sell"]), 0, "0.10", None, None, False, True]]
+        for _ in range(rnd.randint(1, 3)):
+            acts.append(["create", "limit", "buy", 0, "1.00", dec(rnd.choice([50, 60, 70]), 2), None, False, False])
+        script[str(k)] = acts
+    for k in range(first + 13, n, 2):
+        script[str(k)] = [["list", rnd.choice([None, 0])]]
+    return {"syms": ["BTC", "USD", "ETH"], "pairs": [["BTC", "USD"]], "sym_prec": {"BTC": 2, "USD": 2, "ETH": 4},
+            "pair_info": {}, "default_pair": None, "fee": None, "liq": None,
+            "lend": {"quote": "USD", "default": None,
+                     "conds": {"BTC": ["ETH", "10", 4096, "0", "0"], "USD": ["USD", "0", 0, "0", "0"]}},
+            "initial": {"BTC": "5.00", "USD": "100000.00"}, "bars": bars, "script": script,
+            "subscribe_first": False, "profile": "reindexfail", "ample": False}
+
+
+def gen_near_equal_loans(rnd):
+    """Two open loans in the symbol an auto-repay order acquires, with nearly equal principals -- the smaller one older,
+    so that its interest is larger -- and funds for only one of them when the order is cancelled."""
+    a = rnd.choice([F(1), F(2), F(1, 2)])
+    delta = rnd.choice([F(1, 100), F(2, 100), F(5, 100)])
+    vol = rnd.choice(["2", "4", "1"])
+    bars = [[0, 60 * (k + 1), "100.00", "100.00", "100.00", "100.00", vol] for k in range(8)]
+    script = {"0": [["loan", "BTC", dec(a, 2)]],
+              "1": [["create", "limit", "buy", 0, "5.00", "100.00", None, False, True]],
+              "2": [["loan", "BTC", dec(a + delta, 2)], ["create", "market", "sell", 0, dec(a, 2), None, None, False, False]],
+              str(rnd.choice([4, 5])): [["cancel", 0]]}
+    return {"syms": ["BTC", "USD"], "pairs": [["BTC", "USD"]], "sym_prec": {"BTC": 2, "USD": 2}, "pair_info": {},
+            "default_pair": None, "fee": None, "liq": ["10", "0"],
+            "lend": {"quote": "USD", "default": None,
+                     "conds": {"BTC": ["BTC", rnd.choice(["100", "50"]), 1024, "0", "0"], "USD": ["USD", "0", 0, "0", "0"]}},
+            "initial": {"BTC": "0.00", "USD": "100000.00"}, "bars": bars, "script": script,
+            "subscribe_first": False, "profile": "nearequal", "ample": False}
+
+
 def gen_case(rnd, profile="mixed", size="small"):
+    if profile == "nearequal":
+        return gen_near_equal_loans(rnd)
+    if profile == "reindexfail":
+        return gen_reindex_fail(rnd)
+    if profile == "cancelrepay":
+        return gen_cancel_repay(rnd)
+    if profile == "minfee":
+        return gen_minfee(rnd)
+    if profile == "repayboundary":
+        return gen_repay_boundary(rnd)
     if profile == "boundary":
         return gen_boundary(rnd)
     if profile == "compete":
         return gen_compete(rnd)
+    wide = profile == "wide"           # one merged feed carrying four pairs; the strategy listens to one or two of them
+    if wide:
+        profile = "multipair"
     three = rnd.random() < 0.5 or profile == "multipair"
     syms = ["BTC", "USD"] + (["ETH"] if three else [])
     pairs = [["BTC", "USD"]] + ([["ETH", "USD"]] if three else [])
-    if three and rnd.random() < (0.35 if profile != "multipair" else 0.8):
+    if three and not wide and rnd.random() < (0.35 if profile != "multipair" else 0.8):
         pairs.append(["ETH", "BTC"])
+    if wide:
+        syms += ["LTC", "XRP", "ADA", "DOT"]
+        pairs += [["LTC", "USD"], ["XRP", "USD"], ["ADA", "USD"], ["DOT", "USD"]]
     usd_p = rnd.choice([2, 2, 2, 0, 1, 4])
     btc_p = rnd.choice([0, 2, 4, 8, 8, 3]) if profile != "limitpartial" else rnd.choice([0, 0, 1, 2])
     eth_p = rnd.choice([0, 1, 3, 6])
     sym_prec = {"BTC": btc_p, "USD": usd_p}
     if three:
         sym_prec["ETH"] = eth_p
+    if wide:
+        sym_prec["LTC"] = rnd.choice([1, 2, 4])
+        sym_prec["XRP"] = rnd.choice([0, 1, 2])
+        sym_prec["ADA"] = rnd.choice([0, 2])
+        sym_prec["DOT"] = rnd.choice([1, 3])
     if profile == "noprec" and rnd.random() < 0.5:
         sym_prec.pop(rnd.choice(list(sym_prec)))
     pair_info = {}
     if rnd.random() < 0.25:
         i = rnd.randrange(len(pairs))
         b, q = pairs[i]
-        pair_info[str(i)] = [rnd.randint(0, sym_prec.get(b, 2)), rnd.randint(0, sym_prec.get(q, 2))]
+        # usually coarser than the symbols' own precision, sometimes finer
+        extra = rnd.choice([0, 0, 0, 2])
+        pair_info[str(i)] = [rnd.randint(0, sym_prec.get(b, 2) + extra), rnd.randint(0, sym_prec.get(q, 2) + extra)]
     default_pair = rnd.choice([[0, 2], [0, 2], None, [2, 2]])
 
     def prec_of(pi):
@@ -101,7 +253,8 @@ def gen_case(rnd, profile="mixed", size="small"):
                 c = cond()
                 c[0] = s if c[0] == "same" else c[0]
                 conds[s] = c
-        lend = {"quote": "USD", "default": dflt if rnd.random() < (0.85 if profile != "feeborrow" else 0.4) else None,
+        # the account is usually valued in USD; sometimes in BTC, so that conversions go through inverted prices
+        lend = {"quote": "BTC" if (profile in ("margin", "loans") and rnd.random() < 0.25) else "USD", "default": dflt if rnd.random() < (0.85 if profile != "feeborrow" else 0.4) else None,
                 "conds": conds}
         if profile == "feeborrow" and lend["default"] is None:
             lend["conds"].pop("USD", None)
@@ -126,7 +279,8 @@ def gen_case(rnd, profile="mixed", size="small"):
     ref = {}
     for pi, (b, q) in enumerate(pairs):
         qp = prec_of(pi)[1]
-        base = {("BTC", "USD"): 100, ("ETH", "USD"): 10, ("ETH", "BTC"): F(1, 10)}[(b, q)]
+        base = {("BTC", "USD"): 100, ("ETH", "USD"): 10, ("ETH", "BTC"): F(1, 10), ("LTC", "USD"): 50,
+                ("XRP", "USD"): 2, ("ADA", "USD"): 1, ("DOT", "USD"): 20}[(b, q)]
         if qp == 0:
             base = max(1, int(base)) * 10
         ref[pi] = F(base)
@@ -237,9 +391,13 @@ def gen_case(rnd, profile="mixed", size="small"):
             script[str(i)] = acts
     return {"syms": syms, "pairs": pairs, "sym_prec": sym_prec, "pair_info": pair_info, "default_pair": default_pair,
             "fee": fee, "liq": liq, "lend": lend, "initial": initial, "bars": bars, "script": script,
-            "subscribe_first": rnd.random() < 0.3, "profile": profile, "ample": profile == "ample",
+            "subscribe_first": True if wide else rnd.random() < 0.3, "profile": "wide" if wide else profile,
+            "ample": profile == "ample",
+            # pairs whose bar events the strategy handles (the others only feed the exchange)
+            "handler_pairs": sorted(rnd.sample(range(3), rnd.choice([1, 1, 2]))) if wide else None,
             # a single feed carrying the bars of every pair (multi-pair histories only)
-            "merged_source": (rnd.random() < 0.4) if (profile == "multipair" and len(pairs) > 1) else False,
+            # the strategy listens to one or two of the first pairs of the feed
+            "merged_source": True if wide else ((rnd.random() < 0.4) if (profile == "multipair" and len(pairs) > 1) else False),
             # pairs that have a second, passive subscriber besides the strategy's handler
             "extra_subs": ([i for i in range(len(pairs)) if rnd.random() < 0.4]
                            if (profile == "multipair" and len(pairs) > 1) else [])}
